@@ -288,6 +288,7 @@ def find(R):
                     class C:
                         def __init__(s, i, sc): s.i, s.sc = i, sc
                         def Match(s, a): return s.sc
+                        def GetArgumentTypes(s): return {'p': ('parameter type of candidate', s.i)}
                     scores = {{scores}}
                     root = types.Scope(); scope = root
                     for i, sc in enumerate(scores): root.RegisterFunction('h', C(i, sc))
